@@ -222,3 +222,24 @@ func TestC20_history(t *testing.T) {
 			return hasAny(l, "fault:reject", "fault:timeout", "fault:conflict", "fault:commit-timeout")
 		})
 }
+
+// TestC08_backoff: parallel Jobs whose containers mostly fail, several attempts,
+// retry delays of 5-120 s and clock steps around those delays: several indexes
+// of one Job are in back-off at once, one due and another not yet.
+func TestC08_backoff(t *testing.T) {
+	p := profileWith(baseProfile, func(p *e2Profile) {
+		p.retryHeavy = true
+		p.maxJCs, p.maxJobs, p.steps = 1, 2, 50
+		p.weights["createJob"] = 6
+		p.weights["k-finish"] = 14
+		p.weights["k-schedule"] = 10
+		p.weights["k-run"] = 10
+		p.weights["advance"] = 10
+		p.weights["settle"] = 12
+		p.weights["kill"] = 0
+		p.weights["deleteJob"] = 0
+		p.weights["deletePod"] = 1
+	})
+	e2Check(t, "C08", "backoff", 1200, "as history, but every Job is parallel (2-3 indexes, 2-5 attempts, retry delay 5-120 s), containers mostly fail and the clock moves in steps around the retry delays, so that several indexes are in back-off at once with different due times; non-trivial = a retry was created after a delay; distinct = distinct trace",
+		p, []string{"C08"}, func(l []string) bool { return hasAny(l, "retry-after-delay") })
+}
